@@ -415,6 +415,9 @@ def parse_mir(text):
     i, n = 0, len(lines)
     while i < n:
         line = lines[i]
+        m1 = re.match(r"^const ([\w:]+): (\w+) = const (.+);$", line)
+        if m1:
+            funcs.setdefault("constval:" + m1.group(1), (m1.group(3), m1.group(2)))
         is_const = (line.startswith("const ") or line.startswith("static ")) and line.rstrip().endswith("= {")
         if (line.startswith("fn ") and line.rstrip().endswith("{")) or is_const:
             if is_const:
